@@ -4,6 +4,8 @@ import (
 	"bytes"
 	"crypto/sha1"
 	"fmt"
+	"github.com/wokdav/gopki/generator/db"
+	"github.com/wokdav/gopki/generator/db/filesystem"
 	"testing"
 
 	"pgregory.net/rapid"
@@ -209,7 +211,7 @@ func checkC01(f forest) *core.Failure {
 func TestC01(t *testing.T) {
 	r := core.Start(t, "C01")
 	defer r.Finish()
-	r.Rule = "forests of 1-7 entities, depth <= 4, files in nested directories with .yaml/.yml/.json, explicit or file-derived aliases; per entity a key algorithm from all 14 names (quick: RSA <= 2048 generated, larger RSA keys pre-placed from a committed pool), a signature algorithm that fits the issuer's key in 80% of entities and is arbitrary in 20%; SKI/AKI hash, basicConstraints and random extensions, optional profiles; 30% of roots imported (crypto/x509-made for RSA/NIST, harness-built for any curve, incl. a class with foreign string types). Oracle per certificate: ECDSA (own affine arithmetic, cross-checked with crypto/ecdsa) or RSA PKCS#1 v1.5 verification over the raw TBS bytes with the algorithm of the outer signatureAlgorithm OID under the key in the issuer's current certificate; raw issuer Name bytes == raw subject Name bytes of that certificate; hashed SKI/AKI. Plus the issuer x subject key-algorithm matrix with rotating signature algorithms. Non-trivial = successful run with >= 1 subordinate; distinct by rendered configs + import classes."
+	r.Rule = "forests of 1-7 entities, depth <= 4, files in nested directories with .yaml/.yml/.json, explicit or file-derived aliases; per entity a key algorithm from all 14 names (quick: RSA <= 2048 generated, larger RSA keys pre-placed from a committed pool), a signature algorithm that fits the issuer's key in 80% of entities and is arbitrary in 20%; SKI/AKI hash, basicConstraints and random extensions, optional profiles; 30% of roots imported (crypto/x509-made for RSA/NIST, harness-built for any curve, incl. a class with foreign string types). Oracle per certificate: ECDSA (own affine arithmetic, cross-checked with crypto/ecdsa) or RSA PKCS#1 v1.5 verification over the raw TBS bytes with the algorithm of the outer signatureAlgorithm OID under the key in the issuer's current certificate; raw issuer Name bytes == raw subject Name bytes of that certificate; hashed SKI/AKI. Plus the issuer x subject key-algorithm matrix with rotating signature algorithms, and a session in which one database object is opened twice with the issuer's artifact replaced on disk in between (four key algorithms, with and without a subordinate added at the same time). Non-trivial = successful run with >= 1 subordinate; distinct by rendered configs + import classes."
 	r.Assumptions = []string{"RSA and EC keys of entities whose key is pre-placed have the type their keyAlgorithm names", "crypto/rsa, crypto/ecdsa, SHA-1/2 are correct"}
 	wrap := func(f forest) *core.Failure {
 		subs := 0
@@ -238,8 +240,21 @@ func TestC01(t *testing.T) {
 		return fl
 	}
 	core.Register(r, "forest", wrap)
+	reopen := func(c c01Reopen) *core.Failure {
+		r.Case(fmt.Sprintf("reopen %+v", c), "session:issuer-replaced-on-disk-then-reopened")
+		return checkC01Reopen(c)
+	}
+	core.Register(r, "reopen", reopen)
 	if r.Replays() {
 		return
+	}
+	for k, alg := range []string{"P-256", "P-384", "RSA-1024", "brainpoolP256r1"} {
+		for _, addLeaf := range []bool{false, true} {
+			if r.Mine(k) {
+				c := c01Reopen{IssuerAlg: alg, AddLeaf: addLeaf}
+				r.Report("reopen", c, reopen(c))
+			}
+		}
 	}
 	// key-algorithm matrix: issuer alg x subject alg, signature algorithm rotating over those that fit the issuer
 	algs := keyAlgNames
@@ -293,4 +308,69 @@ func TestC01(t *testing.T) {
 		return f
 	}
 	core.Rapid(r, "forest", r.Pick(1200, 80000), gen, wrap)
+}
+
+// ---- one database object opened twice: between the two, the issuer's artifact on disk is replaced by another certificate
+// and key (the user swaps in a CA made elsewhere). What the second pass issues verifies under, and names, the certificate
+// that is in the issuer's file now.
+
+type c01Reopen struct {
+	IssuerAlg string
+	AddLeaf   bool // a further subordinate appears together with the replacement
+}
+
+func checkC01Reopen(c c01Reopen) *core.Failure {
+	sig := fittingSigAlgs(keyKind(c.IssuerAlg))[1]
+	w := World{Ents: []core.Entity{{File: "root.yaml", Subject: []core.RDN{{Key: "CN", Value: "C01 reopen root"}}, KeyAlg: c.IssuerAlg, SigAlg: sig},
+		{File: "a/leaf1.yaml", Subject: []core.RDN{{Key: "CN", Value: "C01 reopen leaf 1"}}, Issuer: "root", SigAlg: sig,
+			Extensions: []core.Extension{{Kind: core.KAKI, HasContent: true, AKI: "hash"}}},
+		{File: "leaf2.json", Subject: []core.RDN{{Key: "CN", Value: "C01 reopen leaf 2"}}, Issuer: "root", SigAlg: sig}}}
+	d := w.Dir()
+	d.Tick(10)
+	dbase := filesystem.NewFilesystemDatabase(&core.MemFS{D: d})
+	pass := func() (err error, pan any) {
+		defer func() { pan = recover() }()
+		if err = dbase.Open(); err != nil {
+			return
+		}
+		defer dbase.Close()
+		var plan db.ChangeList
+		if plan, err = db.PlanBulkUpdate(dbase, db.UpdateStrategy(core.FlagDefault)); err == nil {
+			_, err = db.BulkUpdate(dbase, plan)
+		}
+		return
+	}
+	if err, pan := pass(); pan != nil || err != nil {
+		if pan != nil {
+			return core.Failf("C01/panic", "gopki panicked: %v", pan)
+		}
+		return core.Failf("C01/reopen/setup", "first pass failed: %v", err)
+	}
+	// the replacement: same algorithm family, new key, made by another tool, written "now"
+	key := pkcs8Fixed(c.IssuerAlg, 23)
+	var crt []byte
+	if xk, err := xref.ParsePKCS8(key); err == nil && xk.Kind == "ec" && !nistStd(c.IssuerAlg) {
+		crt = builtSelfSigned(key, "Replacement root", false)
+	} else {
+		crt = goSelfSigned(key, "Replacement root")
+	}
+	d.Tick(50)
+	d.Put("root.pem", append(core.PemBlock("CERTIFICATE", crt), core.PemBlock("PRIVATE KEY", key)...))
+	if c.AddLeaf {
+		nl := core.Entity{File: "later/leaf3.yaml", Subject: []core.RDN{{Key: "CN", Value: "C01 reopen leaf 3"}}, Issuer: "root", SigAlg: sig}
+		w.Ents = append(w.Ents, nl)
+		d.Put(nl.File, nl.Render())
+	}
+	d.Tick(10)
+	if err, pan := pass(); pan != nil || err != nil {
+		if pan != nil {
+			return core.Failf("C01/panic", "gopki panicked on the second pass of the same database object: %v", pan)
+		}
+		return nil // whether a database object may be opened again is nobody's promise: a refusal makes no claim
+	}
+	if fl := chainCheck("C01/reopen", &w, d, true, false); fl != nil {
+		fl.Msg = "issuer artifact replaced on disk, same database object opened again: " + fl.Msg
+		return fl
+	}
+	return nil
 }
